@@ -52,7 +52,7 @@ def generate(rng, tier):
     import stress
     out += [mk(l, treegen.parse_case(l)[2]) for l in stress.tree_stream(tier)]
     # one unit with more data elements than an 8-bit (and, thorough, a 16-bit) counter holds; implementation + framing oracle
-    for n in ([255, 256, 257, 258, 513] if tier == "quick" else [255, 256, 257, 258, 513, 65535, 65536, 65537, 65538]):
+    for n in ([255, 256, 257, 258, 513, 65536, 65537] if tier == "quick" else [255, 256, 257, 258, 513, 65535, 65536, 65537, 65538, 131073]):
         sc = {1: ([], ["di%d" % (i % 10) for i in range(n)]), 2: ([], ["h" + hexs(b"TRAC")] + ["di%d" % (i % 10) for i in range(n)]), 3: ([], ["di7"])}
         sub = [("L", b"TRAC", False, 1), ("L", b"HTRAC", False, 2), ("L", b"ONE", False, 3)]
         c = mk(treegen.case_line("v", sub, sc, [b"TRAC?", b"ONE?;TRAC?;ONE?", b"HTRAC?"]), sc)
